@@ -31,6 +31,7 @@ void gen_bits (gen_t *g, int slot, int fclass, int maxw, int maxh, int flags_all
 void gen_bits_exact (gen_t *g, int slot, int fmt_idx, int w, int h, int pad, int neg, int misalign, int flags);
 void gen_solid (gen_t *g, int slot);
 void gen_gradient (gen_t *g, int slot);
+void gen_yuv (gen_t *g, int slot);
 void gen_source (gen_t *g, int slot, int fclass, int maxdim);      /* bits / solid / gradient mix */
 void gen_unref (gen_t *g, int slot);
 void gen_ref (gen_t *g, int slot);
